@@ -47,7 +47,7 @@ FLOORS = {'*': {**{f'last:{o}': 5 for o in OUTCOMES}, 'real-cancellation': 5, 'm
                 'client:sync': 200, 'client:async': 200, 'tracers:0': 20, 'tracers:1': 50, 'tracers:2': 50, 'tracers:3': 50,
                 'ctx:supplied': 100, 'ctx:default': 100, 'kind:single': 100, 'kind:batch': 50, 'kind:notification': 30,
                 'attempts>=2': 100, 'concurrent-requests': 100, 'tracer-style:class': 100, 'tracer-style:instance': 100,
-                'tracer-style:mixed': 100, 'raising-tracer': 50, 'notification-answered-with-a-body:strict': 20, 'notification-answered-with-a-body:non-strict': 20, 'called-while-handling-another-exception': 100}}
+                'tracer-style:mixed': 100, 'raising-tracer': 50, 'tracers-given-as:deque': 50, 'tracers-given-as:dict-values': 50, 'notification-answered-with-a-body:strict': 20, 'notification-answered-with-a-body:non-strict': 20, 'called-while-handling-another-exception': 100}}
 
 
 class Abort(BaseException):
@@ -177,6 +177,16 @@ def run_case(ctx, n_tracers, attempts, script, kind, supplied_ctx, is_async, ins
     log = []
     tracers = [make_tracer(tracer_style if i % 2 == 0 else 'class', i, log) for i in range(n_tracers)]
     ctx.hit('tracer-style:' + tracer_style)
+    if n_tracers:
+        # the library's own LoggingTracer rides along (it records nothing here, it must not disturb the others), and the
+        # tracers are handed over in some container or other: a list, a tuple, a deque, a dict view
+        from pjrpc.client.tracer import LoggingTracer
+        import collections
+        tracers = tracers + [LoggingTracer()]
+        container = ('list', 'tuple', 'deque', 'dict-values')[(n_tracers + len(script)) % 4]
+        ctx.hit('tracers-given-as:' + container)
+        tracers = {'list': list, 'tuple': tuple, 'deque': collections.deque,
+                   'dict-values': lambda ts: {i: t for i, t in enumerate(ts)}.values()}[container](tracers)
     if kind == 'notification' and notif_body is not None:
         ctx.hit('notification-answered-with-a-body:' + ('strict' if strict else 'non-strict'))
     sc = Script(script, log)
@@ -200,7 +210,8 @@ def run_case(ctx, n_tracers, attempts, script, kind, supplied_ctx, is_async, ins
 
     cls_ = clientside.AsyncClient if is_async else clientside.SyncClient
     client = cls_(transport, tracers=tracers, retry_strategy=strategy, strict=strict)
-    tctx = SimpleNamespace(tag='caller') if supplied_ctx else None
+    # a caller-supplied trace context is the caller's object: a namespace, or something that takes no attributes at all
+    tctx = (SimpleNamespace(tag='caller') if (n_tracers + len(script)) % 3 else object()) if supplied_ctx else None
     if kind == 'single':
         req = v20.Request('m', [1], id=5)
         op = lambda: client.send(req, _trace_ctx=tctx)
